@@ -124,6 +124,11 @@ theorem vw_queueMaxStreamId {s s' : State} {b : Bool} (h : s.queueMaxStreamId = 
     rw [← h.1]
     try rfl
 
+theorem vw_queueMaxIf {s s' : State} {c : Bool} (h : s.queueMaxIf c = some s') : s'.vw = s.vw := by
+  rcases queueMaxIf_cases h with rfl | ⟨b, hq⟩
+  · rfl
+  · exact vw_queueMaxStreamId hq
+
 /-! ### changes of the send map -/
 
 /-- replacing a sending half by one with the same offset and limit -/
